@@ -1652,6 +1652,33 @@ def main(run):
     finally:
         gp.random = saved_random
 
+    def search(run_):
+        """DESIGN 3: an obligation (e.g. regenerated = model) or the correspondence broke and the regular cases gave no
+        failing input: run the property oracle (no Coq cases) on a larger exhaustive scope and on fresh random trees."""
+        gp.random = pyrandom.Random(run.seed * 7919 + 17)
+        t_end = time.time() + run.scale(45, 500)
+        n0 = len(run.oracle_viol)
+        tried = 0
+        try:
+            for nodes in forests(1, nmax + 1):
+                if time.time() > t_end or len(run.oracle_viol) > n0:
+                    break
+                if len(nodes) == nmax + 1:
+                    tried += 1
+                    check_tree(ex, gp.PrimitiveTree(nodes), "search:exhaustive<=%d" % (nmax + 1), ex_tuples, coq=False)
+            while time.time() < t_end and len(run.oracle_viol) == n0:
+                sp = rng.choice(specs)
+                tree, src = gen_tree(sp)
+                if tree is not None and len(tree) <= 400:
+                    tried += 1
+                    check_tree(sp, tree, "search:" + src, grid(sp, 3), coq=False)
+        finally:
+            gp.random = saved_random
+        run.notes.append("search after a broken obligation / correspondence: %d further trees given to the oracle, %d violations"
+                         % (tried, len(run.oracle_viol) - n0))
+
+    run.search_fn = search
+
     run.extra_cov = {"tie": tie_cov.get("tie"), "regenerated_functions": tie_cov["regenerated_functions"],
                      "translator_refused": tie_cov["translator_refused"], "trees": stats["trees"], "trees_also_in_coq": stats["coq_trees"], "max_nodes": stats["max_nodes"],
                      "max_height": stats["max_height"], "compiled_evaluations": stats["evals"], "roundtrips": stats["roundtrips"],
